@@ -276,7 +276,7 @@ func init() {
 			return "err:" + err.Error()
 		}
 		if blk.FusedPlasma != 0 || blk.Difficulty != d {
-			panic("harness: Tpow block is not paid by work alone")
+			return "ok-but-not-paid-by-work-alone" // an outcome of the code under test, not of the harness
 		}
 		return "ok"
 	}
